@@ -244,3 +244,30 @@ def split_after_edit(how, form, us):
     if isinstance(K, dict):
         return sorted(K) == sorted(K2) and all((K[e] is None and K2[e] is None) or abs(si(K[e]) - si(K2[e])) <= 1e-12 * abs(si(K2[e])) for e in K)
     return (K is None and K2 is None) or abs(si(K) - si(K2)) <= 1e-12 * abs(si(K2))
+
+
+def K_dict_units(f1, f2, us):
+    """per-environment constants written with their OWN units (strings / quantities in other systems than the reaction's): every
+    K[e] is the physical ratio kf[e] / kr[e] - the same as the scalar form gives for the same two constants, and as the ratio of the
+    constants of the two split halves"""
+    kfs = ["5 M-1.s-1", "0.25 µm3/molecule/s", UnitValue(3.0, "mM-1.min-1"), 2.0]
+    krs = ["6 min-1", "1 ms-1", UnitValue(0.5, "h-1"), 4.0]
+    kf = {"e0": kfs[f1], "e1": kfs[(f1 + 1) % 4], "default": kfs[(f1 + 2) % 4]}
+    kr = {"e0": krs[f2], "e1": krs[(f2 + 2) % 4], "default": krs[(f2 + 1) % 4]}
+    r = Reaction("A + B -> C", kf=kf, kr=kr, units_system=SYS[us])
+    K = r.K
+    f, v = r.split()
+    for e in ("e0", "e1", "default"):
+        scalar = Reaction("A + B -> C", kf=kf[e], kr=kr[e], units_system=SYS[us])
+        want = si(scalar.kf) / si(scalar.kr)
+        if K.get(e) is None or abs(si(K[e]) - want) > 1e-9 * abs(want):
+            return False
+        if abs(si(scalar.K) - want) > 1e-9 * abs(want):
+            return False
+        halves = si(f.kf[e]) / si(v.kf[e])
+        if abs(halves - want) > 1e-9 * abs(want):
+            return False
+        d = K[e].units.dim
+        if (d["space"], d["time"], d["quantity"]) != (3, 0, -1):
+            return False
+    return True
